@@ -1,6 +1,6 @@
 (* Properties_C14.v — the theorems that decide property C14 on the model, each stated in full and closed by
    `exact <lemma>`; the lemmas live in the Proofs_*.v files.  Nothing else belongs in this file. *)
-From Theo Require Import Base Regex Tokens Lexer Errors Scan SpecLex Gen_Lexer LexStatements Proofs_Lexer Proofs_Scan Proofs_LexRules.
+From Theo Require Import Base Regex Tokens Lexer Errors Scan SpecLex Gen_Lexer LexStatements Proofs_Lexer Proofs_Scan Proofs_LexRules FlexStatements FlexModel Gen_Flex Proofs_Flex.
 Local Open Scope nat_scope.
 
 
@@ -70,3 +70,40 @@ Theorem C14_eof :
                      Forall (fun t => tk t <> T_EOF) body.
 Proof. exact C14_eof_proof. Qed.
 Print Assumptions C14_eof.
+
+Theorem C14_dfa_generic :
+  forall t rs m, check_dfa t rs m = true ->
+  forall s, bytes_ok s -> flex_match t s = Some (option_map as_act (munch rs s 0 None)).
+Proof. exact C14_dfa_generic_proof. Qed.
+Print Assumptions C14_dfa_generic.
+
+Theorem C14_dfa_equiv :
+  forall s, bytes_ok s -> flex_match flex_tables s = Some (option_map as_act (max_munch rules s)).
+Proof. exact C14_dfa_equiv_proof. Qed.
+Print Assumptions C14_dfa_equiv.
+
+Theorem C14_dfa_equiv_needs_bytes :
+  ~ C14_dfa_equiv_unguarded_stmt.
+Proof. exact C14_dfa_equiv_needs_bytes_proof. Qed.
+Print Assumptions C14_dfa_equiv_needs_bytes.
+
+Theorem C14_eol_generic :
+  forall r s, no_newline r = true -> matches_b r s = true -> count_nl s = 0%Z.
+Proof. exact C14_eol_generic_proof. Qed.
+Print Assumptions C14_eol_generic.
+
+Theorem C14_eol :
+  forall i r k s, nth_error rules i = Some (r, k) -> eol_flag flex_tables (Z.of_nat i + 1)%Z = false ->
+    matches_b r s = true -> count_nl s = 0%Z.
+Proof. exact C14_eol_proof. Qed.
+Print Assumptions C14_eol.
+
+Theorem C14_actions :
+  forall i r k, nth_error rules i = Some (r, k) -> nth_error flex_actions i = Some (Some k).
+Proof. exact C14_actions_proof. Qed.
+Print Assumptions C14_actions.
+
+Theorem C14_flex_next_token :
+  forall fuel s line, bytes_ok s -> flex_next_token fuel flex_tables flex_actions s line = Some (next_token fuel rules s line).
+Proof. exact C14_flex_next_token_proof. Qed.
+Print Assumptions C14_flex_next_token.
